@@ -165,7 +165,14 @@ var c02Parents = []string{"", "/d", "/e", "/f", "/missing"}
 
 func c02Prestate() (*verifFS, *refFS) {
 	v := verifNewFS(config.PipeConfig{}, false, true)
-	v.rootOnly()
+	if vm.Bool("rebuiltIndex") {
+		// the instance was opened over an index rebuilt from the tape: names are stored relative to the root ""
+		v.Env.RelNames = true
+		v.Env.AddEntry("/", tar.TypeDir, 0, false, "")
+		v.Env.P.VerifSetRoot("")
+	} else {
+		v.rootOnly()
+	}
 	ref := &refFS{}
 	ref.add("/", true, 0o644)
 	add := func(name string, dir bool, size int64) {
@@ -201,7 +208,7 @@ func c02Agree(v *verifFS, ref *refFS, checkMode bool) bool {
 			continue
 		}
 		nLive++
-		x := ref.find(r.Name)
+		x := ref.find("/" + strings.TrimPrefix(r.Name, "/"))
 		if x == nil {
 			ok = false
 			continue
@@ -242,6 +249,16 @@ func c02Step(v *verifFS, ref *refFS, tag string, light bool) bool {
 		}
 		op = vm.Choice(tag+"op", c02Ops)
 	}
+	// the reference works on the canonical path; the filesystem is handed an equivalent spelling of it
+	canon := name
+	if !light {
+		switch vm.Choice(tag+"spelling", 3) {
+		case 1:
+			name = name[1:]
+		case 2:
+			name = "." + name
+		}
+	}
 	known := false
 	mark := func(id string, c bool) {
 		vm.Known(id, c)
@@ -257,17 +274,17 @@ func c02Step(v *verifFS, ref *refFS, tag string, light bool) bool {
 	switch op {
 	case 0:
 		err = v.FS.Mkdir(name, 0o755)
-		want = ref.mkdir(name)
+		want = ref.mkdir(canon)
 	case 1:
 		err = v.FS.MkdirAll(name, 0o755)
-		want = ref.mkdirAll(name)
+		want = ref.mkdirAll(canon)
 	case 2:
 		h, e := v.FS.Create(name)
 		err = e
 		if e == nil {
 			err = h.Close()
 		}
-		want = ref.create(name, false, true)
+		want = ref.create(canon, false, true)
 	case 3:
 		excl := vm.Bool(tag + "excl")
 		flag := os.O_RDWR | os.O_CREATE
@@ -280,35 +297,35 @@ func c02Step(v *verifFS, ref *refFS, tag string, light bool) bool {
 		if e == nil {
 			err = h.Close()
 		}
-		want = ref.create(name, excl, false)
+		want = ref.create(canon, excl, false)
 	case 4:
 		err = v.FS.Remove(name)
-		want = ref.remove(name)
+		want = ref.remove(canon)
 	case 5:
 		err = v.FS.RemoveAll(name)
-		want = ref.removeAll(name)
+		want = ref.removeAll(canon)
 	case 6:
 		// rename an existing file or directory onto the name
 		src := []string{"/d/g", "/d", "/f", "/e", "/e/d"}[vm.Choice(tag+"src", 5)]
-		vm.Known("C02-rename-onto-itself", name == src)
-		vm.Known("C02-rename-onto-existing-entry", ref.find(name) != nil && name != src)
-		vm.Known("C02-rename-onto-tombstoned-name", name == "/t")
+		vm.Known("C02-rename-onto-itself", canon == src)
+		vm.Known("C02-rename-onto-existing-entry", ref.find(canon) != nil && name != src)
+		vm.Known("C02-rename-onto-tombstoned-name", canon == "/t")
 		err = v.FS.Rename(src, name)
-		want = ref.rename(src, name)
+		want = ref.rename(src, canon)
 	case 7:
 		err = v.FS.Chmod(name, 0o600)
-		want = ref.chmod(name, 0o600)
+		want = ref.chmod(canon, 0o600)
 		checkMode = want
 	case 8:
 		_, err = v.FS.Stat(name)
-		want = ref.find(name) != nil
+		want = ref.find(canon) != nil
 	case 9:
 		h, e := v.FS.Open(name)
 		err = e
 		if e == nil {
 			h.Close()
 		}
-		want = ref.find(name) != nil
+		want = ref.find(canon) != nil
 	}
 	vm.Assert("C02.success_iff_reference_succeeds", (err == nil) == want)
 	agree := true
